@@ -625,7 +625,12 @@ func (fe *FnExec) checkCallees() {
 		tags = []string{"support"}
 	}
 	seen := map[string]bool{}
-	for _, b := range fe.Fn.Blocks {
+	// a helper of this repository that has no contract of its own is transparent:
+	// what counts is what the helper calls (so that extracting a helper raises nothing)
+	blocks := append([]*ssa.BasicBlock(nil), fe.Fn.Blocks...)
+	expanded := map[*ssa.Function]bool{fe.Fn: true}
+	for bi := 0; bi < len(blocks); bi++ {
+		b := blocks[bi]
 		for _, in := range b.Instrs {
 			call, ok := in.(ssa.CallInstruction)
 			if !ok {
@@ -638,6 +643,14 @@ func (fe *FnExec) checkCallees() {
 			short := calleeShortName(c)
 			if f, ok := c.Value.(*ssa.Function); ok && f.Pkg != nil {
 				if benignCalleePkgs[f.Pkg.Pkg.Path()] || benignCallees[f.Pkg.Pkg.Path()+"."+f.Name()] {
+					continue
+				}
+				if !allowed[short] && !c.IsInvoke() && len(f.Blocks) > 0 && fe.P.Contracts[f.String()] == nil &&
+					strings.HasPrefix(f.Pkg.Pkg.Path(), "github.com/TheCacophonyProject/thermal-recorder") {
+					if !expanded[f] {
+						expanded[f] = true
+						blocks = append(blocks, f.Blocks...)
+					}
 					continue
 				}
 			}
@@ -1097,12 +1110,16 @@ func (fe *FnExec) safety(st *State, goal Term, in ssa.Instruction, what string) 
 // siteName gives a position-independent name for an instruction: block.index
 func (fe *FnExec) siteName(in ssa.Instruction) string {
 	b := in.Block()
+	pre := ""
+	if in.Parent() != fe.Fn {
+		pre = in.Parent().Name() + "."
+	}
 	for i, x := range b.Instrs {
 		if x == in {
-			return fmt.Sprintf("b%d.%d", b.Index, i)
+			return fmt.Sprintf("%sb%d.%d", pre, b.Index, i)
 		}
 	}
-	return fmt.Sprintf("b%d", b.Index)
+	return fmt.Sprintf("%sb%d", pre, b.Index)
 }
 
 // ---------------------------------------------------------------------------
@@ -1385,13 +1402,106 @@ func mkValLike(v SVal, fl []Term) SVal {
 // ---------------------------------------------------------------------------
 // block execution
 
+// inlineFrame: a call to a helper of the repository that has no contract of its own
+// is executed in place (the verified text stays the code that runs; extracting a
+// helper from a function under contract changes nothing for its obligations).
+type inlineFrame struct {
+	call  *ssa.Call
+	fn    *ssa.Function
+	block *ssa.BasicBlock
+	idx   int
+	prev  *ssa.BasicBlock
+	ndef  int
+}
+
+const maxInlineDepth = 4
+
+// inlinable: a static call to a function of this repository that has a body, no
+// contract, no loop, no defer/go/closure, is not already being inlined.
+func (fe *FnExec) inlinable(st *State, x *ssa.Call) *ssa.Function {
+	if fe.Mode == "permissive" {
+		// permissive functions abstract calls without contract (havoc); their clauses
+		// are written against that abstraction
+		return nil
+	}
+	c := x.Common()
+	if c.IsInvoke() {
+		return nil
+	}
+	f, ok := c.Value.(*ssa.Function)
+	if !ok || f.Pkg == nil || len(f.Blocks) == 0 || len(f.FreeVars) > 0 {
+		return nil
+	}
+	if !strings.HasPrefix(f.Pkg.Pkg.Path(), "github.com/TheCacophonyProject/thermal-recorder") {
+		return nil
+	}
+	if fe.P.Contracts[f.String()] != nil {
+		return nil
+	}
+	if len(st.frames) >= maxInlineDepth || f == fe.Fn {
+		return nil
+	}
+	for _, fr := range st.frames {
+		if fr.fn == f {
+			return nil
+		}
+	}
+	if ok, seen := fe.inlineOK[f]; seen {
+		if ok {
+			return f
+		}
+		return nil
+	}
+	good := true
+	// acyclic control flow: blocks are numbered in a way that does not guarantee
+	// forward edges, so look for a cycle explicitly
+	color := map[*ssa.BasicBlock]int{}
+	var dfs func(b *ssa.BasicBlock)
+	dfs = func(b *ssa.BasicBlock) {
+		color[b] = 1
+		for _, s := range b.Succs {
+			switch color[s] {
+			case 0:
+				dfs(s)
+			case 1:
+				good = false
+			}
+		}
+		color[b] = 2
+	}
+	dfs(f.Blocks[0])
+	for _, b := range f.Blocks {
+		for _, in := range b.Instrs {
+			switch in.(type) {
+			case *ssa.Defer, *ssa.Go, *ssa.MakeClosure, *ssa.Select, *ssa.Send:
+				good = false
+			}
+		}
+	}
+	if f.Recover != nil {
+		good = false
+	}
+	if fe.inlineOK == nil {
+		fe.inlineOK = map[*ssa.Function]bool{}
+	}
+	fe.inlineOK[f] = good
+	if good {
+		return f
+	}
+	return nil
+}
+
 func (fe *FnExec) runBlock(st *State, b *ssa.BasicBlock) {
+	fe.runBlockFrom(st, b, 0)
+}
+
+func (fe *FnExec) runBlockFrom(st *State, b *ssa.BasicBlock, start int) {
 	for {
 		if st.dead {
 			return
 		}
-		// loop heads
-		if l := fe.loopOf[b]; l != nil {
+		// loop heads (of the function under contract; inlined helpers have no loops)
+		if l := fe.loopOf[b]; l != nil && start == 0 && len(st.frames) == 0 {
 			active := false
 			for _, al := range st.loops {
 				if al == l {
@@ -1409,12 +1519,44 @@ func (fe *FnExec) runBlock(st *State, b *ssa.BasicBlock) {
 			st.loops = append(st.loops, l)
 		}
 		// leaving loops
-		for len(st.loops) > 0 && !st.loops[len(st.loops)-1].Body[b] {
+		for len(st.frames) == 0 && len(st.loops) > 0 && !st.loops[len(st.loops)-1].Body[b] {
 			st.loops = st.loops[:len(st.loops)-1]
 		}
 		var next *ssa.BasicBlock
-		for _, in := range b.Instrs {
+		nextStart := 0
+	instrs:
+		for idx := start; idx < len(b.Instrs); idx++ {
+			in := b.Instrs[idx]
 			switch x := in.(type) {
+			case *ssa.RunDefers:
+				if len(st.frames) > 0 {
+					// an inlined helper has no defers of its own (see inlinable); the
+					// pending ones belong to the function under contract
+					continue
+				}
+				fe.step(st, in)
+				if st.dead {
+					return
+				}
+			case *ssa.Call:
+				f := fe.inlinable(st, x)
+				if f == nil {
+					fe.step(st, in)
+					if st.dead {
+						return
+					}
+					continue
+				}
+				c := x.Common()
+				if len(c.Args) != len(f.Params) {
+					fe.fail("%s: call to %s: %d arguments for %d parameters", fe.pos(x.Pos()), f, len(c.Args), len(f.Params))
+				}
+				for i, a := range c.Args {
+					st.vals[f.Params[i]] = fe.get(st, a)
+				}
+				st.frames = append(append([]inlineFrame(nil), st.frames...), inlineFrame{call: x, fn: f, block: b, idx: idx, prev: st.prev, ndef: len(st.defers)})
+				next = f.Blocks[0]
+				break instrs
 			case *ssa.If:
 				c := fe.get(st, x.Cond).(Scalar).T
 				tb, fb := b.Succs[0], b.Succs[1]
@@ -1445,6 +1587,25 @@ func (fe *FnExec) runBlock(st *State, b *ssa.BasicBlock) {
 				st.prev = b
 				next = b.Succs[0]
 			case *ssa.Return:
+				if n := len(st.frames); n > 0 {
+					fr := st.frames[n-1]
+					st.frames = st.frames[:n-1]
+					var vals []SVal
+					for _, r := range x.Results {
+						vals = append(vals, fe.get(st, r))
+					}
+					switch len(vals) {
+					case 0:
+					case 1:
+						st.vals[fr.call] = vals[0]
+					default:
+						st.vals[fr.call] = TupleV{vals}
+					}
+					st.prev = fr.prev
+					next = fr.block
+					nextStart = fr.idx + 1
+					break instrs
+				}
 				fe.doReturn(st, x)
 				return
 			case *ssa.Panic:
@@ -1471,6 +1632,7 @@ func (fe *FnExec) runBlock(st *State, b *ssa.BasicBlock) {
 			fe.fail("block %d of %s has no terminator", b.Index, fe.Fn)
 		}
 		b = next
+		start = nextStart
 	}
 }
 
